@@ -63,6 +63,9 @@ pub struct GenOpts {
     pub query_constants: bool,
     /// probability weights (x/16)
     pub p_recursion: u32,
+    /// allow `_` in the body of aggregate clauses
+    #[serde(default)]
+    pub agg_wildcards: bool,
 }
 
 impl Default for GenOpts {
@@ -84,6 +87,7 @@ impl Default for GenOpts {
             body_constants: true,
             query_constants: true,
             p_recursion: 5,
+            agg_wildcards: false,
         }
     }
 }
@@ -126,6 +130,8 @@ pub struct Features {
     pub cross_product: bool,
     pub recursive_with_negation: bool,
     pub agg_over_idb: bool,
+    /// an aggregate head term is followed by a plain (group) term
+    pub agg_not_last: bool,
 }
 
 pub fn features(p: &Program) -> Features {
@@ -203,6 +209,17 @@ pub fn features(p: &Program) -> Features {
         if rec_here && c.body.iter().any(|l| matches!(l, Lit::Neg(_))) {
             f.recursive_with_negation = true;
         }
+        let mut seen_agg = false;
+        for h in &c.hargs {
+            match h {
+                HT::Agg(..) => seen_agg = true,
+                _ => {
+                    if seen_agg {
+                        f.agg_not_last = true;
+                    }
+                }
+            }
+        }
         for h in &c.hargs {
             match h {
                 HT::C(_) => f.head_constant = true,
@@ -245,6 +262,7 @@ impl Features {
         c!(cross_product);
         c!(recursive_with_negation);
         c!(agg_over_idb);
+        c!(agg_not_last);
         v
     }
 }
@@ -409,7 +427,11 @@ fn gen_clause(
         atoms.push((r.clone(), *a, BTreeSet::new()));
     }
     while atoms.len() < n_atoms.max(rec_targets.len()) {
-        let r = pick_rel(t, edb, done);
+        let mut r = pick_rel(t, edb, done);
+        if r.float_cols.len() == r.arity {
+            // a relation holding only avg (float) columns cannot bind an integer variable
+            r = &edb[0];
+        }
         atoms.push((r.name.clone(), r.arity, r.float_cols.clone()));
     }
     // randomise position of the recursive atom
@@ -442,10 +464,17 @@ fn gen_clause(
     }
     if bound.is_empty() {
         // make sure at least one variable exists: turn the first non-float argument into a variable
-        if let Some(Lit::Pos(a)) = body.first_mut() {
-            a.args[0] = T::V(nextv);
-            bound.push(nextv);
-            nextv += 1;
+        'outer: for (bi, l) in body.iter_mut().enumerate() {
+            if let Lit::Pos(a) = l {
+                for k in 0..a.args.len() {
+                    if !atoms[bi].2.contains(&k) {
+                        a.args[k] = T::V(nextv);
+                        bound.push(nextv);
+                        nextv += 1;
+                        break 'outer;
+                    }
+                }
+            }
         }
     }
     // arithmetic binding (only outside recursive SCCs so the value domain stays finite)
@@ -487,9 +516,14 @@ fn gen_clause(
             }
         }
         if !any_var {
-            args[0] = T::V(bound[0]);
+            if let Some(k) = (0..r.arity).find(|k| !r.float_cols.contains(k)) {
+                args[k] = T::V(bound[0]);
+                any_var = true;
+            }
         }
-        body.push(Lit::Neg(Atom { rel: r.name.clone(), args }));
+        if any_var {
+            body.push(Lit::Neg(Atom { rel: r.name.clone(), args }));
+        }
     }
     // head
     let mut hargs = Vec::new();
@@ -536,6 +570,9 @@ fn gen_agg_clause(t: &mut Tape, o: &GenOpts, head: &str, arity: usize, edb: &[Re
     let mut o2 = o.clone();
     o2.arithmetic = false;
     o2.head_constants = false;
+    // `_` inside an aggregate body: the two readings of "distinct valuations" (with or without
+    // anonymous variables) differ; that ambiguity is C06's business (agg_wildcards), not C01's
+    o2.wildcards = o.agg_wildcards;
     let base = gen_clause(t, &o2, head, arity, edb, done, &[], false);
     let mut vars: Vec<u8> = Vec::new();
     for l in &base.body {
